@@ -18,14 +18,21 @@ def conn(conns=None, min_=None, rep=True):
     return dict(conns=None, min=int(min_), rep=bool(rep))
 
 
-def pattern(n_src, n_tgt, src_absent=(), tgt_absent=(), src_override=None, tgt_override=None):
+def pattern(n_src, n_tgt, src_absent=(), tgt_absent=(), src_override=None, tgt_override=None, max_src=None, max_tgt=None):
+    """max_src / max_tgt: cap on the degree of every source / target connector that has no explicit override
+    (NodeExistence.max_src_conn_override / max_tgt_conn_override)"""
     so = {int(k): sorted(int(x) for x in v) for k, v in (src_override or {}).items()}
     to = {int(k): sorted(int(x) for x in v) for k, v in (tgt_override or {}).items()}
     for i in src_absent:
         so[int(i)] = [0]
     for j in tgt_absent:
         to[int(j)] = [0]
-    return dict(src_override=so, tgt_override=to)
+    p = dict(src_override=so, tgt_override=to)
+    if max_src is not None:
+        p['max_src'] = int(max_src)
+    if max_tgt is not None:
+        p['max_tgt'] = int(max_tgt)
+    return p
 
 
 class ConnSpec:
@@ -40,8 +47,8 @@ class ConnSpec:
         self.mcp = max_conn_parallel
 
         # allowed degrees: ('list', [..]) or ('min', m)
-        self.src_deg = [self._deg(c, self.so.get(i)) for i, c in enumerate(self.src)]
-        self.tgt_deg = [self._deg(c, self.to.get(j)) for j, c in enumerate(self.tgt)]
+        self.src_deg = [self._deg(c, self.so.get(i), pat.get('max_src')) for i, c in enumerate(self.src)]
+        self.tgt_deg = [self._deg(c, self.to.get(j), pat.get('max_tgt')) for j, c in enumerate(self.tgt)]
         self.src_eff = [self._effective(d) for d in self.src_deg]
         self.tgt_eff = [self._effective(d) for d in self.tgt_deg]
 
@@ -58,11 +65,13 @@ class ConnSpec:
         self.limit = [[self._pair_limit(i, j) for j in range(len(self.tgt))] for i in range(len(self.src))]
 
     @staticmethod
-    def _deg(c, override):
+    def _deg(c, override, cap=None):
         if override is not None:
             return 'list', sorted(set(override))
         if c['conns'] is not None:
-            return 'list', sorted(set(c['conns']))
+            return 'list', sorted(d for d in set(c['conns']) if cap is None or d <= cap)
+        if cap is not None:
+            return 'list', list(range(c['min'], cap+1))
         return 'min', c['min']
 
     @staticmethod
